@@ -196,6 +196,8 @@ def check(prog: Program, rep):
     _ns.arity_rule(prog, RuleProxy(rep, "C02.R10"), "C01.R5", only=("kFlowDecomp", "kFlowDecompCycles"))
     from rules.providers import given_weights_integral
     given_weights_integral(prog, rep, "C02.R10", ["kFlowDecomp"])
+    from rules.providers import given_weights_above_coefficient_threshold
+    given_weights_above_coefficient_threshold(prog, rep, "C02.R10", ["kFlowDecomp"])
     rep.rule("C02.R11", "the flow values of the exact flow rows reach the solver as Python numbers (numpy integer / float32 flows are accepted like in the error models)", floor=3)
     from rules.values import data_rhs_converted
     data_rhs_converted(prog, rep, "C02.R11", {"kFlowDecomp": ["_encode_flow_decomposition", "_encode_flow_decomposition_with_given_weights"],
